@@ -34,7 +34,9 @@ ASSUMPTIONS = ["CPython has no happens-before race detector: races are decided b
                "the dask path executes one extra metadata run per observation (allowed)"]
 REQUIRED_COUNTERS = ["spaces", "computes", "labels_compared", "threads_computes", "processes_computes",
                      "synchronous_computes", "overlapping_task_pairs", "stochastic_labels_compared",
-                     "rng_state_checks", "calibration_pairs", "unique_before_colliding"]
+                     "rng_state_checks", "calibration_pairs", "unique_before_colliding",
+                     "bag_computes", "bag_files_compared", "bag_overlapping_task_pairs",
+                     "bag_first_combination_not_first_to_finish"]
 TIMEOUT = {"quick": 1200, "thorough": 5400}
 LEVEL_TEXT = ("Exploration by runtime monitoring under schedule perturbation: the same observation is executed "
               "sequentially and through dask under thread and process pools of different sizes, repeatedly, with "
@@ -55,6 +57,9 @@ def slow_enc(detector, **kw):
     h = hash((round(float(kw.get("a", 0)) * 8), round(float(kw.get("b", 0)) * 8), salt))
     if kw.get("delay"):
         time.sleep((h % 5) * 0.0015)
+    slow = os.environ.get("VF_SLOW")   # "a,b|a,b" (per probe row) of the run that has to finish last (bag case)
+    if slow and slow.split("|")[kw.get("row", 0)] == f"{float(kw.get('a', 0))!r},{float(kw.get('b', 0))!r}":
+        time.sleep(0.06)   # only the target run matches in both rows and sleeps twice
     with c05._LOCK:
         c05.LOG[-1]["t0"] = t0
         c05.LOG[-1]["t1"] = time.monotonic_ns()
@@ -65,6 +70,7 @@ def plan(tier, seed):
     specs = [{"shard": s, "seed": seed, "kind": "deterministic", "n": n} for s in range(9)]
     specs += [{"shard": 9 + s, "seed": seed, "kind": "stochastic", "n": 3 if tier == "quick" else 24} for s in range(4)]
     specs += [{"shard": 13 + s, "seed": seed, "kind": "calibration", "n": 2 if tier == "quick" else 10} for s in range(3)]
+    specs += [{"shard": 16 + s, "seed": seed, "kind": "bagfiles", "n": 2 if tier == "quick" else 12} for s in range(3)]
     return specs
 
 
@@ -268,6 +274,140 @@ def stoch_case(rec, index, rng, tier):
                      sample={"stochastic": case, "scheduler": sched, "workers": workers})
 
 
+# ------------------------------------------------------------------ (D) files of pyxel.observation_mode (dask bag)
+def bag_case(rec, index, rng, tier):
+    """pyxel.observation_mode(with_dask=True) distributes the runs with a dask bag and every task saves its own
+    files: the files (names and contents) must be those of the sequential run and correspond one-to-one to the
+    parameter combinations, whichever task finishes first."""
+    import dask
+    import pyxel
+    from pyxel.exposure import Readout
+    from pyxel.observation import Observation, ParameterValues
+    from pyxel.outputs import ObservationOutputs
+
+    space = c05.gen_space(rng)
+    space["mode"], space["two_steps"] = "product", False
+    keep = []
+    for p in space["params"]:
+        if p["key"].endswith((".a", ".b")) and len(keep) < 2:
+            uniq = []
+            for v in p["values"]:
+                if v not in uniq:
+                    uniq.append(v)
+            p.update(values=uniq[:4], expr=None, enabled=True)
+            keep.append(p)
+    if not keep:
+        g1 = space["g1"]
+        keep = [{"key": f"pipeline.{g1}.m1.arguments.a", "values": [float(x) for x in rng.sample(range(1, 60), rng.randint(2, 5))],
+                 "expr": None, "enabled": True}]
+    for p in keep:
+        # (a single-valued parameter makes the deprecated entry point fail in xr.combine_by_coords, sequentially
+        #  and in parallel alike: not this property's subject)
+        if len(p["values"]) < 2:
+            p["values"] = [p["values"][0], p["values"][0] + 7, p["values"][0] + 19]
+    space["params"] = keep
+    expected = c05.enumerate_runs(space)
+    pspec = c05.probe_pipeline(space, func="vf.checks.c07.slow_enc", extra={"delay": True})
+    case = {k: space[k] for k in ("g1", "g2", "mode", "params")}
+    case["entry_point"] = "pyxel.observation_mode"
+    n_exp = len(expected)
+    oracle = [c05.encode(space, a) for a in expected]
+    counter = [0]
+
+    def run(dask_on, **sched):
+        counter[0] += 1
+        folder = os.path.join(rec.tmp, f"bag_{index}_{counter[0]}")
+        pv = [ParameterValues(key=p["key"], values=p["values"], enabled=True) for p in space["params"]]
+        obs = Observation(parameters=pv, readout=Readout(times=[1.0]), mode="product", with_dask=dask_on,
+                          outputs=ObservationOutputs(output_folder=folder, save_data_to_file=[{"detector.pixel.array": ["npy"]}]))
+        det = build.make_detector(build.default_detector_spec("ccd", c05.ROWS, c05.COLS))
+        with dask.config.set(**sched):
+            res = pyxel.observation_mode(observation=obs, detector=det, pipeline=build.make_pipeline(pspec))
+        out = obs.outputs.current_output_folder
+        files = {f: np.load(os.path.join(out, f)) for f in sorted(os.listdir(out)) if f.endswith(".npy")}
+        return files, res.dataset
+
+    def one_to_one(files):
+        """every expected combination is the content of exactly one file and vice versa"""
+        left = list(files.items())
+        missing = 0
+        for want in oracle:
+            hit = next((i for i, (_, arr) in enumerate(left) if arr.shape == want.shape and np.array_equal(arr, want)), None)
+            if hit is None:
+                missing += 1
+            else:
+                left.pop(hit)
+        return missing, [name for name, _ in left]
+
+    rec.count("bag_spaces")
+    os.environ.pop("VF_SLOW", None)
+    try:
+        ref_files, ref_ds = run(False, scheduler="synchronous")
+    except Exception as exc:  # noqa: BLE001
+        import traceback
+        rec.violation("C07:observation_mode:sequential-run-failed", f"{type(exc).__name__}: {exc} :: {traceback.format_exc()[-500:]}", case, index)
+        return
+    missing, extra = one_to_one(ref_files)
+    if missing or extra:
+        rec.violation("C07:observation_mode:sequential:files-not-one-to-one",
+                      f"{n_exp} combinations: {missing} without a file holding their pixel bucket, files matching no combination: {extra[:4]}", case, index)
+    scheds = [("threads", rng.choice([2, 4])), ("threads", rng.choice([8, 16])), ("processes", rng.choice([2, 4]))]
+    if tier == "quick" and index % 2:
+        scheds = scheds[:2]
+    for sched, workers in scheds:
+        for rep in range(1 if sched == "processes" else 3):
+            # rep 0: the first combination is the slowest one; rep 1: the last one; rep 2: hashed delays only
+            slow = expected[0] if rep == 0 else (expected[-1] if rep == 1 else None)
+            os.environ.pop("VF_SLOW", None)
+            if slow is not None:
+                full = {**space["defaults"], **slow}
+                pres = [f"pipeline.{space['g1']}.m1.arguments.", f"pipeline.{space['g2']}.m2.arguments."]
+                os.environ["VF_SLOW"] = "|".join(f"{float(full[pre + 'a'])!r},{float(full[pre + 'b'])!r}" for pre in pres)
+            os.environ["VF_SALT"] = str(rng.randint(0, 10**6))
+            with c05._LOCK:
+                c05.LOG.clear()
+                c05._KEEP.clear()
+            try:
+                files, ds = run(True, scheduler=sched, num_workers=workers)
+            except Exception as exc:  # noqa: BLE001
+                import traceback
+                rec.violation(f"C07:observation_mode:{sched}:run-failed",
+                              f"{sched}/{workers}: {type(exc).__name__}: {exc} :: {traceback.format_exc()[-500:]}", case, index)
+                continue
+            finally:
+                os.environ.pop("VF_SLOW", None)
+            rec.count("bag_computes")
+            rec.count("bag_files_compared", len(files))
+            missing, extra = one_to_one(files)
+            if missing or extra:
+                rec.violation(f"C07:observation_mode:{sched}:files-not-one-to-one",
+                              f"{sched}/{workers} workers, {n_exp} combinations: {missing} without a file holding their pixel bucket, "
+                              f"files matching no combination: {extra[:4]}; files: {sorted(files)}", case, index)
+            elif sorted(files) != sorted(ref_files) or any(not np.array_equal(files[f], ref_files[f]) for f in files):
+                moved = [f for f in files if f not in ref_files or not np.array_equal(files[f], ref_files[f])]
+                rec.violation(f"C07:observation_mode:{sched}:files-differ-from-sequential",
+                              f"{sched}/{workers} workers: the parallel run wrote {sorted(files)}, the sequential run {sorted(ref_files)}; "
+                              f"files with another name or content: {moved[:4]}", case, index)
+            try:
+                same = bool(ds.equals(ref_ds))
+            except Exception:  # noqa: BLE001
+                same = False
+            if not same:
+                rec.violation(f"C07:observation_mode:{sched}:dataset-differs-from-sequential",
+                              f"{sched}/{workers} workers: ObservationResult.dataset is not equal to the sequential one", case, index)
+            if sched == "threads":
+                with c05._LOCK:
+                    log = list(c05.LOG)
+                order, overlaps, _ = completion_stats(log)
+                rec.count("bag_overlapping_task_pairs", overlaps)
+                first = tuple(oracle[0][0, :5])
+                if order and order[0] is not None and tuple(order[0][:5]) != first:
+                    rec.count("bag_first_combination_not_first_to_finish")
+                rec.observe("bag_completion_orders", f"{index}:{hash(order) % 10**8}")
+            rec.case(("bag", [(p["key"], p["values"]) for p in space["params"]], sched, workers, rep), n_exp >= 2,
+                     sample={"space": case, "scheduler": sched, "workers": workers})
+
+
 # ------------------------------------------------------------------ (C) calibration across configurations
 CAL_LOG: list = []
 
@@ -346,6 +486,8 @@ def run_shard(spec, rec):
             det_case(rec, i, rng, tier)
         elif spec["kind"] == "stochastic":
             stoch_case(rec, i, rng, tier)
+        elif spec["kind"] == "bagfiles":
+            bag_case(rec, i, rng, tier)
         else:
             cal_case(rec, i, rng, tier)
 
